@@ -704,6 +704,55 @@ def g_nfah_incl(rng):
     return "nfah " + " ".join(steps)
 
 
+def nfa_greatest_sim(trans, finals, states):
+    """greatest forward simulation (p, q): q simulates p – naive refinement"""
+    R = {(p, q) for p in states for q in states if (p not in finals) or (q in finals)}
+    succ = {}
+    for (a, b, c) in trans:
+        succ.setdefault((a, b), set()).add(c)
+    syms = sorted({b for (_, b, _) in trans})
+    changed = True
+    while changed:
+        changed = False
+        for (p, q) in sorted(R):
+            ok = True
+            for b in syms:
+                for p2 in succ.get((p, b), ()):
+                    if not any((p2, q2) in R for q2 in succ.get((q, b), ())):
+                        ok = False
+                        break
+                if not ok:
+                    break
+            if not ok:
+                R.discard((p, q))
+                changed = True
+    return R
+
+
+def g_nfah_inclsim(rng):
+    """the two selections that take a simulation: state-disjoint dense operands and a simulation PREORDER on their union
+    (the greatest one, the identity, or – 10 % – the greatest one restricted to the states of B plus the identity)"""
+    A, B = nfa_pair(rng)
+    sa = A.states()
+    A = A.renamed({q: i for i, q in enumerate(sa)})
+    sb = B.states()
+    B = B.renamed({q: len(sa) + i for i, q in enumerate(sb)})
+    states = sorted(set(A.states()) | set(B.states()))
+    trans = list(A.trans) + list(B.trans)
+    finals = set(A.finals) | set(B.finals)
+    c = rng.random()
+    if c < 0.3:
+        R = {(q, q) for q in states}
+    else:
+        R = nfa_greatest_sim(trans, finals, states)
+        if c < 0.4:
+            bs = set(B.states())
+            R = {(p, q) for (p, q) in R if (p in bs and q in bs) or p == q}
+    tok = ",".join(f"{p}.{q}" for (p, q) in sorted(R)) or "-"
+    steps = [f"def:{A.tok()}", f"def:{B.tok()}", f"inclsim:0:1:{tok}", f"inclsim:1:0:{tok}"]
+    return "nfah " + " ".join(steps)
+
+
 def g_nfah_cli(rng):
     A, B = nfa_pair(rng)
     return f"nfah def:{A.tok()} def:{B.tok()} incl:0:1"
@@ -1550,7 +1599,7 @@ GENERATORS = {
     "mth": g_mth, "mthrc": g_mthrc,
     "tah_store": g_tah_store, "tah_hist": g_tah_hist,
     "lts": g_lts,
-    "nfah_incl": g_nfah_incl, "nfah_cli": g_nfah_cli, "nfah_ops": g_nfah_ops, "nfah_hist": g_nfah_hist,
+    "nfah_incl": g_nfah_incl, "nfah_inclsim": g_nfah_inclsim, "nfah_cli": g_nfah_cli, "nfah_ops": g_nfah_ops, "nfah_hist": g_nfah_hist,
     "incl": g_incl, "inclall": g_inclall, "union": g_union, "unionpre": g_unionpre, "mapsx": g_mapsx, "uniondisj": g_uniondisj,
     "isect": g_isect, "isectbu": g_isectbu, "trim": g_trim, "cand": g_cand, "reduce": g_reduce, "simdown": g_simdown, "simup": g_simup,
     "compl": g_compl, "rename": g_rename,
